@@ -18,7 +18,8 @@ var intervals = []ivl{
 var bucketCounts = []int{1, 1, 2, 2, 3, 5, 8, 60}
 var countLimits = []int64{0, 1, 1, 2, 2, 3, 5, 10, 20}
 var sizeLimits = []int64{0, 1, 150, 400, 400, 1000, 1000, 3000}
-var pctChoices = []int{0, 1, 5, 10, 20, 25, 30, 33, 40, 50, 50, 60, 70, 75, 100}
+// ratio 0 is refused by the config parser (`required` means non-zero), so the smallest ratio is 0.01
+var pctChoices = []int{1, 1, 5, 10, 20, 25, 30, 33, 40, 50, 50, 60, 70, 75, 100}
 var lvlPool = []string{"error", "warn", "info", "debug", "trace", "fatal", "ошибка", `e"q`, "E R"}
 
 // virtual epoch: far from the real clock of the machine, so that the
@@ -58,7 +59,7 @@ func genDist(r *rand.Rand, field string, limit int64, size bool) Dist {
 			if full && i == n-1 {
 				p = 100 - sum
 			}
-			if p < 0 || sum+p > 100 {
+			if p <= 0 || sum+p > 100 {
 				ok = false
 				break
 			}
